@@ -298,6 +298,8 @@ let c06_verdict (q : c06_query) (obs : packet option) : string =
 let run_monitor (id : string) (case : string list) (result : string) : string =
   if case = [ "na" ] then
     (if result = "NA ok" then "PASS"
+     else if id = "C18" then
+       "FAIL an instance whose host lost address records with a removed interface is not reported again with exactly what is left: " ^ result
      else "FAIL a question in exactly the registered spelling is not answered with the right records: " ^ result) else
   match id, case with
   | "C06", "c06" :: rest ->
